@@ -475,18 +475,26 @@ func (rn *runner) reboot(fsm *simdisk.FSModel, img map[string][]byte, mem *memor
 	// buffer). pathdb.New accepts that journal again (it only compares the disk
 	// root) although the histories it sits on have been truncated / rewritten.
 	// Whatever goes wrong then is one finding.
-	var last *journalRec
+	// Candidates: the last journal completed before the cut; after a power loss
+	// also any earlier one (the unsynced put of a later journal may be lost).
+	var cands []*journalRec
 	for i := range rn.journals {
 		if rn.journals[i].endSeq <= cut {
-			last = &rn.journals[i]
+			if draw == 0 {
+				cands = cands[:0]
+			}
+			cands = append(cands, &rn.journals[i])
 		}
 	}
-	if last != nil && last.kvRoot == kvRoot0 {
+	for _, jr := range cands {
+		if jr.kvRoot != kvRoot0 {
+			continue
+		}
 		for _, r := range rn.recovers {
-			if r.seq >= last.endSeq && r.seq < cut && r.k < last.diskID {
-				v.Msg += fmt.Sprintf("\n(stale journal: the journal of the clean shutdown at seq %d (disk layer id %d) is still on disk; Recover to id %d started at seq %d rolled back below it)", last.endSeq, last.diskID, r.k, r.seq)
+			if r.seq >= jr.endSeq && r.seq < cut && r.k < jr.diskID {
+				v.Msg += fmt.Sprintf("\n(stale journal: the journal of the clean shutdown at seq %d (disk layer id %d) is still on disk; Recover to id %d started at seq %d rolled back below it)", jr.endSeq, jr.diskID, r.k, r.seq)
 				v.Key = "stale-journal-after-rollback"
-				break
+				return v
 			}
 		}
 	}
@@ -671,6 +679,13 @@ func (rn *runner) rebootInner(fsm *simdisk.FSModel, img map[string][]byte, mem *
 		// table and "aligned" by hiding every item of the group
 		return &simcore.Violation{Oracle: "crash-freezer-inconsistent", Key: "crash-freezer-tail-beyond-head",
 			Msg: fmt.Sprintf("state history freezer reopened with tail %d beyond head %d (persisted id %d)", stail, shead, pid)}
+	}
+	if stail > pid && draw > 0 {
+		// same root cause as the log.Crit variant (tail truncation trusted a
+		// persistent state id that was not durable), seen when a journal lifts the
+		// disk layer above the tail so that the open itself succeeds
+		return &simcore.Violation{Oracle: "crash-history-tail-beyond-state", Key: "reboot-open-crit:history-tail-beyond-persisted-state",
+			Msg: fmt.Sprintf("state history tail %d is beyond the persisted state id %d (the flush that made a higher id persistent was lost with the unsynced key-value units): the histories that lead back to the persisted state are gone", stail, pid)}
 	}
 	if stail > pid {
 		return simcore.Violf("crash-history-tail-beyond-state", "state history tail %d is beyond the persisted state id %d: the history that leads to the persisted state is gone", stail, pid)
